@@ -292,48 +292,21 @@ Section Addressing.
 
 End Addressing.
 
-(** * The SLM-mask coefficient of the XY interaction is read one sample late *)
-Lemma adapt_index_late : forall D k,
-    (3 <= D)%Z -> (1 <= k)%Z -> (k < D - 1)%Z ->
-    adapt_index_full (D - 1) D k = (k - 1)%Z.
+(** * The SLM-mask coefficient of the XY interaction is read at the sampled time *)
+Lemma adapt_index_id : forall D k,
+    (2 <= D)%Z -> (0 <= k)%Z -> (k <= D - 1)%Z ->
+    adapt_index_full D D k = k.
 Proof.
   intros D k HD H1 H2. unfold adapt_index_full.
-  destruct (k =? D - 1)%Z eqn:E; [apply Z.eqb_eq in E; lia|].
-  replace (D - 1 - 1)%Z with (D - 2)%Z by lia.
-  symmetry. apply (Z.div_unique_pos (k * (D - 2)) (D - 1) (k - 1) (D - 1 - k)); lia.
+  destruct (k =? D - 1)%Z eqn:E.
+  - apply Z.eqb_eq in E. lia.
+  - apply Z.div_mul. lia.
 Qed.
 
-Lemma mask_coeff_late : forall D e,
-    (3 <= D)%Z -> (1 <= e)%Z -> (e < D - 1)%Z ->
-    unmasked_on_full D e e = false.
+Lemma mask_coeff_exact : forall D e k,
+    (2 <= D)%Z -> (0 <= k)%Z -> (k <= D - 1)%Z ->
+    unmasked_on_full D e k = negb (k <? e)%Z.
 Proof.
-  intros D e HD H1 H2. unfold unmasked_on_full.
-  rewrite adapt_index_late by lia.
-  destruct (e - 1 <? e)%Z eqn:E; [reflexivity|apply Z.ltb_ge in E; lia].
-Qed.
-
-Lemma mask_coeff_after : forall D e k,
-    (3 <= D)%Z -> (1 <= e)%Z -> (e < k)%Z -> (k <= D - 1)%Z ->
-    unmasked_on_full D e k = true.
-Proof.
-  intros D e k HD H1 H2 H3. unfold unmasked_on_full.
-  destruct (Z.eq_dec k (D - 1)) as [E|E].
-  - unfold adapt_index_full. subst k. rewrite Z.eqb_refl.
-    destruct (D - 1 - 1 <? e)%Z eqn:E2; [apply Z.ltb_lt in E2; lia|reflexivity].
-  - rewrite adapt_index_late by lia.
-    destruct (k - 1 <? e)%Z eqn:E2; [apply Z.ltb_lt in E2; lia|reflexivity].
-Qed.
-
-Lemma mask_coeff_before : forall D e k,
-    (3 <= D)%Z -> (1 <= e)%Z -> (0 <= k)%Z -> (k <= e)%Z -> (e < D - 1)%Z ->
-    unmasked_on_full D e k = false.
-Proof.
-  intros D e k HD He H1 H2 H3. unfold unmasked_on_full.
-  destruct (Z.eq_dec k 0) as [E|E].
-  - subst k. unfold adapt_index_full.
-    destruct (0 =? D - 1)%Z eqn:E0; [apply Z.eqb_eq in E0; lia|].
-    rewrite Z.mul_0_l, Z.div_0_l by lia.
-    destruct (0 <? e)%Z eqn:E2; [reflexivity|apply Z.ltb_ge in E2; lia].
-  - rewrite adapt_index_late by lia.
-    destruct (k - 1 <? e)%Z eqn:E2; [reflexivity|apply Z.ltb_ge in E2; lia].
+  intros D e k HD H1 H2. unfold unmasked_on_full.
+  rewrite adapt_index_id by assumption. reflexivity.
 Qed.
